@@ -52,6 +52,7 @@ func runC11(c *Ctx) {
 	ruleCloseMarks(c, p, "C11.close-marks")
 	rulePoolSyncUse(c, p, "C11.sync-use")
 	rulePoolLimits(c, p, "C11.limits")
+	rulePoolCtorLeak(c, p, "C11.ctor-leak")
 	if roles := resolveDo(c, p); roles != nil {
 		ruleWatch(c, p, roles, "C11")
 	}
@@ -314,6 +315,25 @@ func runC11(c *Ctx) {
 		for _, fn := range p.Funcs() {
 			if fn.Pkg != nil && fn.Pkg.Pkg.Path() == core.PkgPool && len(core.FindCalls(fn, func(f *types.Func) bool { return core.IsMethod(f, pkgPuddle, "Pool", "AcquireAllIdle") })) > 0 {
 				hc = fn
+			}
+		}
+		if hc == nil {
+			// a health check that takes idle resources one at a time instead of the whole idle set
+			for _, fn := range p.Funcs() {
+				if fn.Pkg == nil || fn.Pkg.Pkg.Path() != core.PkgPool || fn.Blocks == nil {
+					continue
+				}
+				if len(core.FindCalls(fn, isResourceMethod("ReleaseUnused"))) == 0 {
+					continue
+				}
+				for _, call := range core.FindCalls(fn, func(f *types.Func) bool {
+					return core.IsMethod(f, pkgPuddle, "Pool", "TryAcquire") || core.IsMethod(f, pkgPuddle, "Pool", "Acquire")
+				}) {
+					if core.InLoop(call.(ssa.Instruction)) {
+						c.R.Bad(rule, core.FuncName(fn), cfg, p.Pos(call.Pos()), "the health check takes idle connections one at a time and puts the healthy ones back with ReleaseUnused: the idle set is a stack, the connection just put back is the next one taken, so the pass looks at the most recently used connection again and again and never at the ones below it - an idle connection under a busier one outlives MaxConnIdleTime and MaxConnLifetime")
+						return
+					}
+				}
 			}
 		}
 		if !c.must(p, "health check (function calling puddle Pool.AcquireAllIdle)", hc != nil) {
@@ -911,4 +931,47 @@ func rulePoolLimits(c *Ctx, p *core.Program, rule string) {
 	}
 	c.R.Count("defaults assigned in chpool.Options.setDefaults", n)
 	c.R.Floor(rule, cfg, n, 3)
+}
+
+// rulePoolCtorLeak (C11): a connection the pool's constructor has dialed is closed when the constructor fails.
+func rulePoolCtorLeak(c *Ctx, p *core.Program, rule string) {
+	c.R.Rule(rule, "in the resource constructor the pool hands to puddle (the closure of package chpool that calls ch.Dial), every exit that returns an error after the dial succeeded passes a Close of the dialed client: puddle forgets the slot of a failed constructor, so a client that is not closed there stays open outside the pool's accounting - MaxConns is exceeded by one per failed verification and Pool.Close leaves it open")
+	cfg := p.Cfg.Name
+	n := 0
+	for _, fn := range p.Funcs() {
+		if pkgOf(fn) == nil || pkgOf(fn).Path() != core.PkgPool || fn.Blocks == nil {
+			continue
+		}
+		for _, call := range core.FindCalls(fn, func(f *types.Func) bool { return core.IsFunc(f, core.PkgCh, "Dial") }) {
+			n++
+			key := core.CallKey(fn, call)
+			ev := core.ErrValue(call)
+			al := core.Aliases(fn, ev)
+			okEdge := func(b *ssa.BasicBlock, i int) bool {
+				if ifi, ok := b.Instrs[len(b.Instrs)-1].(*ssa.If); ok {
+					if ns, ok := core.NilTest(ifi, al); ok && ns != i {
+						return false // the dial's own failure: nothing to close
+					}
+				}
+				return true
+			}
+			w := core.ReachAvoiding(core.PointOf(call.(ssa.Instruction)), func(in ssa.Instruction) bool {
+				r, ok := in.(*ssa.Return)
+				if !ok || len(r.Results) == 0 {
+					return false
+				}
+				last := r.Results[len(r.Results)-1]
+				return !core.IsNilConst(last) && isErrorTyped(last)
+			}, func(in ssa.Instruction) bool {
+				return core.IsCallOf(in, func(f *types.Func) bool { return core.IsMethod(f, core.PkgCh, "Client", "Close") })
+			}, okEdge)
+			if len(w) > 0 {
+				c.R.Bad(rule, key, cfg, p.Pos(w[0].At.Pos()), "the constructor can fail after the dial succeeded without closing the client it dialed: the connection is lost to the pool but stays open", p.TrailString(w[0])...)
+			} else {
+				c.R.Ok(rule, key, cfg, p.Pos(call.Pos()), "no failing exit after a successful dial (or the client is closed first)")
+			}
+		}
+	}
+	c.R.Count("ch.Dial calls in package chpool", n)
+	c.R.Floor(rule, cfg, n, 1)
 }
